@@ -25,6 +25,8 @@ type cntSrc struct {
 	pos   int64
 	hw    int64
 	chunk int
+	// dataErr: the Read that delivers the last byte also returns io.EOF (allowed by io.Reader)
+	dataErr bool
 }
 
 func (s *cntSrc) read(p []byte) (int, error) {
@@ -41,6 +43,9 @@ func (s *cntSrc) read(p []byte) (int, error) {
 	s.pos += int64(n)
 	if n > 0 && s.pos > s.hw {
 		s.hw = s.pos
+	}
+	if s.dataErr && s.pos >= int64(len(s.data)) {
+		return n, io.EOF
 	}
 	return n, nil
 }
@@ -88,6 +93,12 @@ func (r srcBRS) ReadByte() (byte, error) {
 var brposFileSeq int
 
 func runBrposImpl(c *Ctx, kind uint64, chunk int, o rOpts, file []byte, choices []bool) Val {
+	return runBrposImplD(c, kind, chunk, false, o, file, choices)
+}
+
+// runBrposImplD: dataErr makes the counting sources (kinds 2..4) report io.EOF together with their
+// last bytes.
+func runBrposImplD(c *Ctx, kind uint64, chunk int, dataErr bool, o rOpts, file []byte, choices []bool) Val {
 	var r io.Reader
 	var posHw func() (uint64, uint64)
 	switch kind {
@@ -109,7 +120,7 @@ func runBrposImpl(c *Ctx, kind uint64, chunk int, o rOpts, file []byte, choices 
 		r = f
 		posHw = func() (uint64, uint64) { p, _ := f.Seek(0, io.SeekCurrent); return uint64(p), 0 }
 	default:
-		s := &cntSrc{data: file, chunk: chunk}
+		s := &cntSrc{data: file, chunk: chunk, dataErr: dataErr}
 		switch kind {
 		case 2:
 			r = srcPlain{s}
